@@ -54,6 +54,7 @@ let () =
       let ztaut : Model.ref list ref = ref [] in
       let since : string list ref = ref [] and prev_ps : psnap option ref = ref None in
       let order_req : int list option ref = ref None in
+      let lswap_pending = ref false in   (* C08: a LEVELDOWN op since the last snapshot *)
       let prev_v2l : int array ref = ref [||] in
       let last_gc = ref (-1) in
       let init_inner = ref (-1) in
@@ -384,7 +385,8 @@ let () =
             else if not (Model.unique_nodes_b (Model.PositiveMap.elements s.Model.s_nodes)) then "two stored nodes of one level have identical children"
             else if not (Model.terms_unique_b s.Model.s_terms) then "duplicate terminal"
             else "a handle refers to a missing node or carries a tag" in
-          fail step "C03" "prop" ("wf_b false: " ^ why));
+          fail step "C03" "prop" ("wf_b false: " ^ why);
+          if !order_req <> None || !lswap_pending then fail step "C08" "prop" ("after reordering, wf_b false: " ^ why));
         if ps.inner <> ps.listed then
           fail step "C03" "prop" (Printf.sprintf "num_inner_nodes = %d but the level views list %d nodes" ps.inner ps.listed);
         if ps.levels <> n then fail step "C16" "prop" "num_levels differs from the number of variables";
@@ -451,7 +453,7 @@ let () =
             | Some newt ->
               let oldt' = if old_n < n then extend_vt kname old_n n oldt else oldt in
               if old_n <= n && oldt' <> newt then (
-                let prop = if !order_req <> None || ps.reorder <> !last_gc && false then "C08" else "C05" in
+                let prop = if !order_req <> None || !lswap_pending || ps.reorder <> !last_gc && false then "C08" else "C05" in
                 let prop = if old_n < n then "C16" else prop in
                 fail step prop "prop"
                   (Printf.sprintf "handle h%d changed its function: before %s, now %s" slot (show_vt oldt') (show_vt newt)))
@@ -519,6 +521,15 @@ let () =
             (Printf.sprintf "%d:o%s;" step (String.concat "," (List.map string_of_int (Array.to_list ps.v2l))));
         last_gc := ps.gc;
         (* C09: a snapshot, add_vars(k), a snapshot: replay add_vars on the extracted model *)
+        (* C08: a snapshot, level_down(i), a snapshot: replay the swap on the extracted level_swap (BDD) *)
+        (match !since, !prev_ps with
+         | [ ld ], Some pp when kname = "bdd" && List.mem "C08" !props && starts_with ld "LEVELDOWN " ->
+           check "C08";
+           (match Lswap.check pp ps (int_of_string (String.sub ld 10 (String.length ld - 10))) with
+            | Ok () -> ()
+            | Error (kind, m) -> fail step "C08" kind m)
+         | _ -> ());
+        lswap_pending := false;
         (match !since, !prev_ps with
          | [ vk ], Some pp when kname = "zbdd" && !zok && List.mem "C09" !props && starts_with vk "VARS " ->
            check "C09";
@@ -550,7 +561,7 @@ let () =
             else (
               (* "no dead node after gc" can only be asserted if the snapshot directly follows the gc *)
               (match toks with [ "SNAP" ] | [ "GC" ] -> () | _ -> gc_pending := false; dropall_gc := !dropall_gc && false);
-              (match toks with [ "SNAP" ] | "VARS" :: _ -> () | _ -> since := "other" :: !since);
+              (match toks with [ "SNAP" ] | "VARS" :: _ | "LEVELDOWN" :: _ -> () | _ -> since := "other" :: !since);
               match toks with
               | [ "SNAP" ] -> (try process_snapshot i res with Failure m -> fail i "C03" "corr" ("driver: " ^ m))
               (* C07: block markers, the event trace (replayed by ocaml/c07_main.ml) and a collection under
@@ -570,6 +581,7 @@ let () =
                    fail i "C05" "prop" (Printf.sprintf "capacity probe: out of memory with %d stored nodes in a manager of capacity %d (all of them referenced)" k cap)
                  | _ -> ())
               | ("ORDER" | "ORDERSEQ") :: vs -> order_req := Some (List.map int_of_string vs)
+              | [ "LEVELDOWN"; k ] -> lswap_pending := true; since := ("LEVELDOWN " ^ k) :: !since
               | "MKSUBST" :: sid :: pairs ->
                 let ps = List.filter_map (fun p -> match String.split_on_char '=' p with
                     | [ v; h ] -> Some (int_of_string v, slot_of h) | _ -> None) pairs in
